@@ -387,6 +387,48 @@ class Kernel:
             self.notes_auto_inlined = getattr(self, "notes_auto_inlined", []) + [name]
         return cache[name]
 
+    def auto_inline_method(self, obj, name, callee):
+        """a member function the contract does not know, defined in the kernel's own translation unit file and called on a
+        modelled object (typically a method extracted from the kernel's body by a refactoring): executed in place with the
+        model object as `this`, so every field it touches still goes through the contract's model (an unmodelled field or
+        callee inside it is a gap as usual)"""
+        if not self.auto_inline or not name or name.startswith("operator") or self.tu.startswith("gen:") or not isinstance(obj, Obj):
+            return None
+        rid = callee.get("referencedMemberDecl") if callee is not None else None
+        fn = self.by_id.get(rid) if rid is not None else None
+        if fn is None or fn.get("name") != name:
+            # node ids are per clang invocation: a helper outside the kernel's own dump is found by name (and, for a member
+            # template, by the bound member type of the call) in a dump of its own
+            cache = self.__dict__.setdefault("_auto_inline_method_cache", {})
+            if name not in cache:
+                try:
+                    objs = extract.dump(self.tu, name)
+                    extract.annotate_files(objs)
+                    self.index(objs)
+                    cache[name] = extract.find_functions(objs, name)
+                except Exception:
+                    cache[name] = []
+            tu_file = os.path.join(extract.REPO, self.tu)
+            cands = []
+            for f in cache[name]:
+                src = extract.fn_source(f)
+                if src and os.path.join(extract.REPO, src["file"]) == tu_file:
+                    cands.append(f)
+            want = (callee or {}).get("type", {}).get("qualType", "")
+            exact = [f for f in cands if f.get("type", {}).get("qualType", "") == want]
+            if len(exact) >= 1:
+                cands = exact[:1]
+            elif len({(extract.fn_source(f) or {}).get("sha256") for f in cands}) == 1 and cands:
+                cands = cands[:1]        # instantiations of one member template: the same text
+            fn = cands[0] if len(cands) == 1 else None
+        if fn is None or not extract.has_body(fn):
+            return None
+        src = extract.fn_source(fn)
+        if not src or os.path.join(extract.REPO, src["file"]) != os.path.join(extract.REPO, self.tu):
+            return None
+        self.notes_auto_inlined = getattr(self, "notes_auto_inlined", []) + [name]
+        return lambda I, o, args, n, fn=fn: self.run_inline(I, fn, o, args)
+
     def ctor_handler(self, qt, node):
         h = self.ctors.get(qt)
         if h is not None:
